@@ -11,8 +11,9 @@ RULE = ('Hypothesis draws a type T, 1..4 values of it and for each a reference e
         'with every choice point drawn - including encodings ending in end-of-octets markers and explicitly tagged primitives in '
         'indefinite form) plus a tail t from {empty, 00, 00 00, 00 00 00 00, another valid encoding, random octets, ff..}; oracle: '
         'decode(e + t, T) returns the value of decode(e, T) and exactly t; StreamingDecoder over BytesIO(e1..en) yields n objects '
-        'and stream.tell() right after the i-th object equals |e1|+..+|ei| (also without guiding type for self-describing T). '
-        'Preconditioned on decode(e, T) succeeding with empty remainder (otherwise the case belongs to C09). '
+        'and stream.tell() right after the i-th object equals |e1|+..+|ei| (also without guiding type for self-describing T; also on '
+        'a seekable non-blocking source whose bursts arrive on the reader\'s own read clock). '
+        'decode(e, T) of one encoding alone must not hand octets back; value errors of decode(e, T) belong to C01/C09 and only exclude the case. '
         'Non-trivial = non-empty tail, n >= 2, or e ends with 00 00; distinct = distinct (T, e1..en, t).')
 ASSUMPTIONS = ['input encodings come from pv/core/x690.py and are validated by its reader']
 SHARDS = {'quick': (16, 200), 'thorough': (16, 5000)}
@@ -55,6 +56,9 @@ def run_case(case, col=None):
         ok_all = True
         for sname, spec in specs:
             d0 = lib.decode(codec, e, spec)
+            if d0.ok and d0.rest != b'':
+                # e is exactly one encoding (the reference reader says so): handing part of it back is consuming less than one
+                F('oneshot-' + sname, 'short', 'decode(e) of exactly one encoding leaves %s unread | e=%s' % (bytes(d0.rest).hex()[:60], e.hex()[:120]))
             good = d0.ok and d0.rest == b''
             if good and spec is not None:
                 good = absval.equal(T, d0.value, v, spec)[0]
@@ -105,6 +109,36 @@ def run_case(case, col=None):
                 continue
             if got != expect:
                 F(sub, 'positions', 'positions after each object %s, ends of the encodings %s | stream=%s' % (got, expect, stream.getvalue().hex()[:160]))
+    # positions again, on a seekable source whose data arrives on the reader's own clock (bursts may land between two reads
+    # of one decoder step): tell() right after the i-th object is still the end of the i-th encoding
+    if usable and len(usable) == len(encs):
+        from pv.core import streams
+        data = b''.join(e for e, _c in usable)
+        ends, tot = [], 0
+        for e, _c in usable:
+            tot += len(e)
+            ends.append(tot)
+        for sizes, arrivals, eof_tick in case.get('clocked') or []:
+            st = streams.ClockSeekable(data, sizes, arrivals, eof_tick)
+            got, steps, err = [], 0, None
+            try:
+                for obj in lib.DEC['BER'].StreamingDecoder(st, asn1Spec=sch):
+                    steps += 1
+                    if steps > 20 * len(data) + 3 * eof_tick + 60:
+                        err = 'no end after %d steps' % steps
+                        break
+                    if isinstance(obj, lib.error.SubstrateUnderrunError):
+                        continue
+                    got.append(st.tell())
+            except lib.error.PyAsn1Error as ex:
+                err = harness.exc_sig(ex)
+            except Exception as ex:
+                err = 'leak ' + harness.exc_sig(ex)
+            where = 'chunks=%s arrive at read ticks %s, end at %d | stream=%s' % (sizes[:20], arrivals[:20], eof_tick, data.hex()[:160])
+            if err is not None:
+                F('stream-clocked', 'raises', '%s after %d of %d objects | %s' % (err, len(got), len(ends), where), err)
+            elif got != ends:
+                F('stream-clocked', 'positions', 'positions after each object %s, ends of the encodings %s | %s' % (got, ends, where))
     # the same encodings, repeated until they exceed twice the read-ahead buffer, from a non-seekable stream
     if case.get('pipe') and usable and len(usable) == len(encs) and not _f09_region(T, encs):
         # (definite-length constructed elements read through the caching wrapper hit known finding F09 - the
@@ -166,6 +200,7 @@ def replay(case):
 
 def run_shard(desc, seed, tier, col):
     from hypothesis import strategies as st
+    from pv.core.streams import cuts_to_sizes as streams_cuts
 
     @st.composite
     def cases(draw):
@@ -190,10 +225,20 @@ def run_shard(desc, seed, tier, col):
                 tails.append(x690.der({'k': 'INTEGER', 'tags': []}, d.int(-300, 300)))
         ev['tails'] = tails
         ev['pipe'] = d.pct(6)
+        n = sum(len(e) for e in ev['encs'])
+        ev['clocked'] = []
+        for _ in range(6 if n >= 2 else 0):
+            sizes = streams_cuts(n, sorted(set(d.int(1, n - 1) for _ in range(d.int(1, 4)))))
+            t, arrivals = 0, []
+            for i in range(len(sizes)):
+                t += 0 if i == 0 else d.pick([1, 1, 2, 2, 3, 4, 6])
+                arrivals.append(t)
+            ev['clocked'].append([sizes, arrivals, t + d.pick([0, 1, 2, 3])])
         return ev
 
     def body(ev):
-        case = {'T': ev['T'], 'encs': ev['encs'], 'tails': ev['tails'], 'forms': ev['forms'], 'vals': ev['vals'], 'pipe': ev['pipe']}
+        case = {'T': ev['T'], 'encs': ev['encs'], 'tails': ev['tails'], 'forms': ev['forms'], 'vals': ev['vals'], 'pipe': ev['pipe'],
+                'clocked': ev['clocked']}
         nontriv = len(ev['encs']) >= 2 or any(ev['tails'][1:]) or any(e.endswith(b'\x00\x00') for e in ev['encs'])
         feats = ['n=%d' % len(ev['encs'])] + sorted(set('form:' + f for f in ev['forms']))
         if any(e.endswith(b'\x00\x00') for e in ev['encs']):
